@@ -5,6 +5,7 @@ An op description is a dict {"op": name, "r": receiver register or 0, ...op spec
 Setting arguments are described by *forms* (see build_setting) together with the texts the driver
 declares them to denote ("S"); the spec, not this file, decides whether the library honoured them.
 """
+import os
 import re
 
 from .core import cps, uncps, opt, guarded, clamp
@@ -187,7 +188,9 @@ def _render(m, o):
     fl = [b(o.get('optimize', True)), b(o.get('reset_start', False)), b(o.get('reset_end', True))]
     if how != 'to_str':
         fl = [1, 0, 1]
-    a = {'how': how, 'spec': cps(spec or ''), 'flags': fl}
+    # the transcribed renderer (drift.render) is costly to evaluate: every event in the thorough tier, a sample otherwise
+    every = int(os.environ.get('VERIF_DRIFT_RENDER_EVERY', '6'))
+    a = {'how': how, 'spec': cps(spec or ''), 'flags': fl, 'drift': b(len(m.events) % every == 0)}
     if how == 'str':
         call = lambda: str(x)
     elif how == 'format':
